@@ -7,7 +7,7 @@ from hypothesis import strategies as st
 
 from vf import cme as cmemod, distcheck, gen, ref, spec as specmod, stats
 from vf.core import R
-from vf.props.c06 import instrument
+from vf.props.c06 import instrument, BIG
 
 
 def _delay_value(sp, d, key):
@@ -70,7 +70,7 @@ def _run_delay(sp, tp, seed, how):
 def check_path(case):
     res = R()
     base = case["spec"]
-    sp = instrument(base)
+    sp = instrument(base, consumed_counters=True)
     tp = np.array(case["grid"], dtype=float)
     dt = float(tp[1] - tp[0])
     x, pending, qtimes = _run_delay(sp, tp, case["seed"], case["how"])
@@ -86,6 +86,9 @@ def check_path(case):
     delayed = [j for j in range(nr) if f"D{j}" in col]
     for j in delayed:
         D[:, j] = x[:, col[f"D{j}"]]
+    for j in sp.get("consumed_counters", []):
+        D[:, j] = BIG - x[:, col[f"D{j}"]]          # a delayed part without products: its counter counts down
+        res.label("delayed_part_consumes_only")
     # (i) accounting: final state + still-queued deliveries account for every firing
     for j in range(nr):
         if j in delayed:
@@ -316,6 +319,8 @@ def path_cases(draw):
         if draw(st.integers(0, 4)) == 0:
             d["r"] = [draw(st.sampled_from(species))]
             any_delayed_reactant = True
+            if draw(st.booleans()):
+                d["p"] = []                  # a delayed part that only consumes (a molecule with a lifetime)
         rx["delay"] = d
         b.reactions.append(rx)
     x0 = {s: float(draw(st.integers(1, 30))) for s in species}
